@@ -79,6 +79,12 @@ pub fn gen(stream: &str, tier: &str, seed: u64, out: &mut dyn Write) -> bool {
                         let alt = ref_encode(s, &m, &mut Choices { r: &mut r, canonical: false });
                         let _ = writeln!(cx.out, "pbespecchk {} {} {} {} {}", e.name, ps, e.idx, m_sexp(&m), hex(&alt));
                     }
+                    // last occurrence wins: the same encoding behind records that it overrides (stale map entries for the same keys,
+                    // explicit zeros of singular scalars) still decodes to the value.  No membership claim: oracle only
+                    let stale = crate::shared::refcodec::stale_prefix(s, &m, &mut r);
+                    if !stale.is_empty() {
+                        let _ = writeln!(cx.out, "pbedup {} {} {} {} {} oracle-only", e.name, ps, e.idx, m_sexp(&m), hex(&[stale, canon.clone()].concat()));
+                    }
                     // the emitted encoder's own bytes must be in the relation (order fixed: no map with two entries)
                     if !multi_entry(&m) && (crate::shared::msgverbs::FLAG_ON || m_same(&norm_negzero(&m), &m)) {
                         let _ = writeln!(cx.out, "pbespecchk {} {} {} {} {}", e.name, ps, e.idx, m_sexp(&m), hex(&(e.ops.raw_enc)(&m)));
